@@ -111,6 +111,11 @@ struct Run
 		auto h = handler(o, OP_TWAIT, objs[std::size_t(o)].name + ".wait", then);
 		in_call = true; objs[std::size_t(o)].tm->expires_after(sim::chrono::milliseconds(ms)); objs[std::size_t(o)].tm->async_wait(h); in_call = false;
 	}
+	void timer_wait_noarm(int o, std::function<void(boost::system::error_code const&, std::size_t)> then = nullptr)
+	{
+		auto h = handler(o, OP_TWAIT, objs[std::size_t(o)].name + ".wait", then);
+		in_call = true; objs[std::size_t(o)].tm->async_wait(h); in_call = false;
+	}
 	void tcp_connect(int o, tcp::endpoint ep, std::function<void(boost::system::error_code const&, std::size_t)> then = nullptr)
 	{
 		auto h = handler(o, OP_CONNECT, objs[std::size_t(o)].name + ".connect", then);
@@ -200,6 +205,13 @@ struct Run
 		if (!x.exists()) { iv_skipped = true; return; }
 		boost::system::error_code ec;
 		if (kind == 4 && !outstanding_on(o).empty()) { iv_skipped = true; return; } // move needs "no operation outstanding"
+		if (kind == 3 && x.kind == K_TIMER)
+		{
+			// re-arming a timer (with or without a wait pending) replaces its expiry: a pending wait is aborted
+			x.intervened_at = now_ns(); x.intervened_kind = kind; x.superseding_op = OP_TWAIT;
+			in_call = true; x.tm->expires_after(sim::chrono::milliseconds(7)); in_call = false;
+			return;
+		}
 		if (kind == 3 && (x.kind == K_TIMER || x.kind == K_RES_T || x.kind == K_RES_U || x.last_op == OP_CONNECT || x.last_op == OP_NONE || x.last_op == OP_UWAITWRITE)) { iv_skipped = true; return; }
 		if (kind == 3 && outstanding_on(o).empty()) { iv_skipped = true; return; }
 		if (kind == 1 && (x.kind == K_TIMER || x.kind == K_RES_T || x.kind == K_RES_U)) { iv_skipped = true; return; }
@@ -261,7 +273,8 @@ void Run::H::operator()(boost::system::error_code const& ec, tcp::socket peer) c
 // ---------------------------------------------------------------------------
 // scenario catalogue
 
-constexpr int NSCN = 22;
+constexpr int NSCN = 23;
+constexpr long long FAR_MS = 5000; // scenario 22: expiry of the timer nobody waits on, far beyond everything else
 
 Topology topo_for(int id)
 {
@@ -454,6 +467,20 @@ std::vector<int> build(Run& R, int id, int param, bool with_control)
 			targets = {rx, tx};
 			break;
 		}
+		case 22:
+		{
+			// timers that are armed but not (or not yet, or no longer) waited on: the simulation's timer queue refers to
+			// them although no handler is outstanding
+			int t0 = R.add(K_TIMER, 0, "armed-idle"), t1 = R.add(K_TIMER, 0, "armed-late-wait"), t2 = R.add(K_TIMER, 1, "fired-rearmed"), t3 = R.add(K_TIMER, 1, "clutter");
+			R.objs[std::size_t(t0)].tm->expires_after(sim::chrono::milliseconds(FAR_MS));
+			R.objs[std::size_t(t1)].tm->expires_after(sim::chrono::milliseconds(40));
+			R.at(12, [r, t1, alive]() { if (alive(t1)) r->timer_wait_noarm(t1); });
+			R.timer_wait(t2, 8, [r, t2, alive](boost::system::error_code const& e, std::size_t) { if (!e && alive(t2)) r->objs[std::size_t(t2)].tm->expires_after(sim::chrono::milliseconds(6)); });
+			R.at(30, [r, t2, alive]() { if (alive(t2) && r->outstanding_on(t2).empty()) r->timer_wait_noarm(t2); });
+			R.timer_wait(t3, 20, [r, t3, alive](boost::system::error_code const& e, std::size_t) { if (!e && alive(t3)) r->timer_wait(t3, 25); });
+			targets = {t0, t1, t2};
+			break;
+		}
 		case 13: case 14:
 		{
 			int rz = R.add(id == 13 ? K_RES_T : K_RES_U, 0, "resolver");
@@ -536,6 +563,7 @@ Outcome run_scn(int id, int param, int k, int kind, int objsel, bool c12, Outcom
 		catch (Boom const&) { threw = true; }
 		catch (std::exception const& e) { threw_other = true; R.fail(std::string("an unexpected exception came out of run(): ") + e.what()); }
 		if (R.threw && !threw) R.fail("an exception thrown by a user handler did not propagate out of run()");
+		long long const main_end = now_ns();
 		if (R.throw_next) { R.throw_next = false; R.iv_skipped = true; } // no user handler ran after the boundary: nothing to throw from
 		(void)threw_other;
 		out.skipped = out.skipped || R.iv_skipped || (k >= 0 && !R.iv_done);
@@ -573,7 +601,7 @@ Outcome run_scn(int id, int param, int k, int kind, int objsel, bool c12, Outcom
 				{
 					// a new operation supersedes outstanding operations of the same kind (reads/waits vs writes vs accepts)
 					int const lo = x.superseding_op;
-					auto cls = [](int op) { return (op == OP_READ || op == OP_WAITREAD) ? 1 : op == OP_WRITE ? 2 : (op >= OP_ACCEPT0 && op <= OP_ACCEPT2) ? 3 : (op == OP_URECV || op == OP_URECVFROM || op == OP_UWAITREAD) ? 4 : 0; };
+					auto cls = [](int op) { return (op == OP_READ || op == OP_WAITREAD) ? 1 : op == OP_WRITE ? 2 : (op >= OP_ACCEPT0 && op <= OP_ACCEPT2) ? 3 : (op == OP_URECV || op == OP_URECVFROM || op == OP_UWAITREAD) ? 4 : op == OP_TWAIT ? 5 : 0; };
 					applies = cls(s.op) != 0 && cls(s.op) == cls(lo);
 				}
 				if (!applies) continue;
@@ -590,6 +618,15 @@ Outcome run_scn(int id, int param, int k, int kind, int objsel, bool c12, Outcom
 			if (std::size_t(k) < base->inflight_at.size() && base->inflight_at[std::size_t(k)] > 0 && (x.kind == K_TCP || x.kind == K_UDP || x.kind == K_ACC)) out.nontrivial = true;
 		}
 		if (R.iv_kind == 5 && R.threw) out.nontrivial = true;
+		// ---- scenario 22: a cancelled, destroyed or re-armed timer that nobody waits on is silent -- the simulation must
+		// not wake up for its old expiry (a stale queue entry; after destruction a dangling one)
+		if (id == 22 && !threw && !out.inconclusive && R.iv_done && !R.iv_skipped && base && R.iv_obj == targets[0] && (R.iv_kind == 0 || R.iv_kind == 2 || R.iv_kind == 3)
+			&& R.objs[std::size_t(R.iv_obj)].intervened_at < (FAR_MS - 100) * 1000000LL)
+		{
+			out.nontrivial = true;
+			if (main_end >= FAR_MS * 1000000LL) R.fail(fmt("timer 'armed-idle' (expiry %lld ms, no wait pending) was %s at t=%lld ns, yet the simulation still ran on to its old expiry (clock %lld ns at quiescence)", FAR_MS, R.iv_kind == 0 ? "cancelled" : R.iv_kind == 2 ? "destroyed" : "re-armed to t+7ms", R.objs[std::size_t(R.iv_obj)].intervened_at, main_end));
+		}
+		if (id == 22 && R.iv_done && !R.iv_skipped && base && R.iv_kind != 5) out.nontrivial = true; // an armed timer is referred to by the timer queue
 
 		// ---- teardown in a legal order, then run again (everything outstanding must complete)
 		bool const after_throw = threw;
